@@ -434,6 +434,30 @@ func (o *C08) seqCheck(w *World) {
 
 func (o *C08) AfterBegin(w *World) { o.seqCheck(w) }
 
+// AfterEnd: an execution the external chain reports must find the batch the hub was waiting for — otherwise
+// hub and contract have drifted apart on what is still owed.
+func (o *C08) AfterEnd(w *World) {
+	if w.Tainted {
+		return
+	}
+	t := w.T()
+	for _, a := range t.Applied {
+		e, ok := a.Event.(*mhub2types.BatchExecutedEvent)
+		if !ok {
+			continue
+		}
+		truth, isTrue := w.TrueClaim(a.Chain, a.Nonce).(*mhub2types.BatchExecutedEvent)
+		if !isTrue || truth.BatchNonce != e.BatchNonce || truth.ExternalCoinId != e.ExternalCoinId {
+			continue
+		}
+		w.St.Check("C08:in-step")
+		if _, known := t.PreEnd.Batches[a.Chain][bkey(e.ExternalCoinId, e.BatchNonce)]; !known {
+			w.Fail("C08", "in-step", a.Chain+":executed-batch-unknown", fmt.Sprintf("%s: the external chain executed batch %d of token %s, but when the hub observed it the batch was no longer pending there (its transfers were released although the batch was still executable)", a.Chain, e.BatchNonce, e.ExternalCoinId))
+			return
+		}
+	}
+}
+
 // Finish: after the last fault every validator polled, signed and relayed for several rounds (Gen.Drain):
 // the hub must have caught up with the external chains.
 func (o *C08) Finish(w *World) {
